@@ -363,3 +363,36 @@ func c13Count(s, sub string) int {
 	}
 	return n
 }
+
+type c13Wrap struct{ inner error }
+
+func (e *c13Wrap) Error() string { return "c13 wrapped: " + e.inner.Error() }
+func (e *c13Wrap) Unwrap() error { return e.inner }
+
+// a node that itself runs another compiled graph and wraps that graph's failure in an error of its own: the outer
+// run's error still lets errors.As find the node's own error type and errors.Is the innermost cause
+func VerifC13WrappedInnerRun() {
+	ctx := context.Background()
+	vcfg("fifo", 1)
+	inner := c13Chain("b", c13Sentinel, false)
+	ri, err := inner.Compile(ctx)
+	vassert(err == nil, "inner graph compiles")
+	g := NewGraph[map[string]any, map[string]any]()
+	_ = g.AddLambdaNode("n", InvokableLambda(func(ctx context.Context, in map[string]any) (map[string]any, error) {
+		out, e := ri.Invoke(ctx, in)
+		if e != nil {
+			return nil, &c13Wrap{inner: e}
+		}
+		return out, nil
+	}))
+	_ = g.AddEdge(START, "n")
+	_ = g.AddEdge("n", END)
+	r, err := g.Compile(ctx)
+	vassert(err == nil, "outer graph compiles")
+	rerr := c13Run(r, vchoose("paradigm", 2), map[string]any{"in": vsymInt("x")})
+	vassert(rerr != nil, "the run fails")
+	var w *c13Wrap
+	vassert(errors.As(rerr, &w), "errors.As finds the failing node's own error type in the run error")
+	vassert(errors.Is(rerr, c13Sentinel), "errors.Is finds the innermost cause")
+	vassert(strings.Contains(rerr.Error(), "node path: [n]"), "the error names the failing node of this run")
+}
